@@ -123,9 +123,13 @@ type Term struct {
 	Bound []*Term // for quantifiers
 	free  []int   // ids of free *bound-style* variables occurring (sorted)
 	size  int
+	quant bool // contains a quantifier
 }
 
 func (t *Term) ID() int { return t.id }
+
+// HasQuant reports whether the term contains a quantifier.
+func (t *Term) HasQuant() bool { return t.quant }
 
 // Ctx owns the hash-cons table and symbol declarations of one verification unit.
 type Ctx struct {
@@ -137,6 +141,8 @@ type Ctx struct {
 	True    *Term
 	False   *Term
 	NilA    *Term
+	// Rewrite maps term ids to replacement terms while a case of a case split is being executed.
+	Rewrite map[int]*Term
 }
 
 func NewCtx() *Ctx {
@@ -166,13 +172,24 @@ func (c *Ctx) key(t *Term) string {
 func (c *Ctx) mk(t *Term) *Term {
 	k := c.key(t)
 	if o, ok := c.tab[k]; ok {
+		if c.Rewrite != nil {
+			if r, ok := c.Rewrite[o.id]; ok {
+				return r
+			}
+		}
 		return o
 	}
 	c.next++
 	t.id = c.next
 	t.size = 1
 	var fr map[int]bool
+	if t.Op == OpForall || t.Op == OpExists {
+		t.quant = true
+	}
 	for _, a := range t.Args {
+		if a.quant {
+			t.quant = true
+		}
 		t.size += a.size
 		if t.size > 1<<30 {
 			t.size = 1 << 30
@@ -455,7 +472,7 @@ func (c *Ctx) Ite(cond, a, b *Term) *Term {
 func addrRoot(a *Term) (*Term, int) {
 	for {
 		switch a.Op {
-		case OpFld, OpIdx:
+		case OpFld, OpIdx, OpIdxBase, OpFldBase:
 			a = a.Args[0]
 		case OpObj:
 			return a, 1
@@ -789,8 +806,106 @@ func foldBin(op Op, a, b *Term, w int) *big.Int {
 	return nil
 }
 
-func (c *Ctx) Add(a, b *Term) *Term  { return c.bin(OpAdd, a, b) }
-func (c *Ctx) Sub(a, b *Term) *Term  { return c.bin(OpSub, a, b) }
+func (c *Ctx) Add(a, b *Term) *Term { return c.linear(a, b, false) }
+func (c *Ctx) Sub(a, b *Term) *Term { return c.linear(a, b, true) }
+
+// linear normalises sums/differences: atoms with integer coefficients plus a constant, in a canonical
+// order, so that (x + s) - (y + s) and similar index expressions cancel syntactically.
+func (c *Ctx) linear(a, b *Term, sub bool) *Term {
+	if a.S != b.S || a.S.K != KBV {
+		panic(fmt.Sprintf("bv add sort mismatch %v %v: %s ; %s", a.S, b.S, c.Show(a), c.Show(b)))
+	}
+	w := a.S.W
+	if a.size+b.size > 400 {
+		if sub {
+			return c.bin(OpSub, a, b)
+		}
+		return c.bin(OpAdd, a, b)
+	}
+	coef := map[int]*big.Int{}
+	atoms := map[int]*Term{}
+	k := new(big.Int)
+	var walk func(t *Term, m *big.Int, depth int)
+	walk = func(t *Term, m *big.Int, depth int) {
+		switch {
+		case t.Op == OpConst:
+			k.Add(k, new(big.Int).Mul(t.V, m))
+		case t.Op == OpAdd && depth < 40:
+			walk(t.Args[0], m, depth+1)
+			walk(t.Args[1], m, depth+1)
+		case t.Op == OpSub && depth < 40:
+			walk(t.Args[0], m, depth+1)
+			walk(t.Args[1], new(big.Int).Neg(m), depth+1)
+		case t.Op == OpNeg && depth < 40:
+			walk(t.Args[0], new(big.Int).Neg(m), depth+1)
+		case t.Op == OpMul && t.Args[1].Op == OpConst && depth < 40:
+			walk(t.Args[0], new(big.Int).Mul(m, t.Args[1].Signed()), depth+1)
+		default:
+			if _, ok := coef[t.id]; !ok {
+				coef[t.id] = new(big.Int)
+				atoms[t.id] = t
+			}
+			coef[t.id].Add(coef[t.id], m)
+		}
+	}
+	walk(a, big.NewInt(1), 0)
+	if sub {
+		walk(b, big.NewInt(-1), 0)
+	} else {
+		walk(b, big.NewInt(1), 0)
+	}
+	ids := make([]int, 0, len(coef))
+	mod := new(big.Int).Lsh(big.NewInt(1), uint(w))
+	for id, cf := range coef {
+		cf.Mod(cf, mod)
+		if cf.Sign() != 0 {
+			ids = append(ids, id)
+		}
+	}
+	sort.Ints(ids)
+	var pos, neg *Term
+	addTo := func(acc *Term, t *Term) *Term {
+		if acc == nil {
+			return t
+		}
+		return c.bin(OpAdd, acc, t)
+	}
+	half := new(big.Int).Rsh(mod, 1)
+	for _, id := range ids {
+		cf := coef[id]
+		t := atoms[id]
+		if cf.Cmp(half) >= 0 { // negative coefficient
+			n := new(big.Int).Sub(mod, cf)
+			if n.Cmp(big.NewInt(1)) != 0 {
+				t = c.bin(OpMul, t, c.BVConst(n, w))
+			}
+			neg = addTo(neg, t)
+		} else {
+			if cf.Cmp(big.NewInt(1)) != 0 {
+				t = c.bin(OpMul, t, c.BVConst(cf, w))
+			}
+			pos = addTo(pos, t)
+		}
+	}
+	k.Mod(k, mod)
+	var r *Term
+	switch {
+	case pos == nil && neg == nil:
+		return c.BVConst(k, w)
+	case pos == nil:
+		r = c.mkNeg(neg)
+	case neg == nil:
+		r = pos
+	default:
+		r = c.mk(&Term{Op: OpSub, S: pos.S, Args: []*Term{pos, neg}})
+	}
+	if k.Sign() != 0 {
+		r = c.mk(&Term{Op: OpAdd, S: r.S, Args: []*Term{r, c.BVConst(k, w)}})
+	}
+	return r
+}
+
+func (c *Ctx) mkNeg(a *Term) *Term { return c.mk(&Term{Op: OpNeg, S: a.S, Args: []*Term{a}}) }
 func (c *Ctx) Mul(a, b *Term) *Term  { return c.bin(OpMul, a, b) }
 func (c *Ctx) UDiv(a, b *Term) *Term { return c.bin(OpUDiv, a, b) }
 func (c *Ctx) URem(a, b *Term) *Term { return c.bin(OpURem, a, b) }
@@ -1074,7 +1189,11 @@ func (c *Ctx) print(sb *strings.Builder, t *Term, names map[int]string, depth in
 	case OpFld:
 		sb.WriteString("(Fld ")
 		c.print(sb, t.Args[0], names, depth+1)
-		fmt.Fprintf(sb, " %d)", t.K)
+		if t.K < 0 {
+			fmt.Fprintf(sb, " (- %d))", -t.K)
+		} else {
+			fmt.Fprintf(sb, " %d)", t.K)
+		}
 	case OpIdx:
 		sb.WriteString("(Idx ")
 		c.print(sb, t.Args[0], names, depth+1)
